@@ -1352,7 +1352,11 @@ class ValueObject(Value):
             args_.addArgs(fn.getArgNames())
             args_.setArgs([None], [self])
             try:
-                result = fn.execute(args_, None, None)
+                # a built-in function bound to _str_ looks names up in the
+                # environment it is handed; there is none to hand on here
+                from ckl.functions import Environment
+
+                result = fn.execute(args_, Environment(), None)
                 return result.value if result.isString() else str(result)
             except CklRuntimeError as e:
                 e.stacktrace.append("_str_")
@@ -1362,8 +1366,8 @@ class ValueObject(Value):
                 "<*"
                 + ", ".join(
                     [
-                        f"{key}={self.value.get(key)}"
-                        for key in self.value.keys()
+                        f"{key}={value}"
+                        for key, value in list(self.value.items())
                         if not key.startswith("_")
                     ]
                 )
